@@ -64,6 +64,11 @@ type loopCtx struct {
 	li      *loopInfo
 	measure *Term // value of the decreases expression at the head
 	headSt  *State
+	dropped []*Term // quantified facts from before the loop, restored when the loop is left
+	body    map[*ssa.BasicBlock]bool
+	exited  bool
+	outerFC func(ex *Exec, st *State, in ssa.Instruction, a *Term)
+	outerFR func(ex *Exec, st *State, in ssa.Instruction, dst *SliceV, n *Term)
 }
 
 type deferred struct {
@@ -118,6 +123,7 @@ type Exec struct {
 	noMerge  bool
 	initMode bool
 	initMaps map[int64]bool
+	allowPanic bool
 	entry    *State        // state at entry of the root function (old())
 	rootVars map[string]TV // ghost/let bindings of the root contract
 	deadline time.Time
@@ -184,6 +190,14 @@ func (ex *Exec) pos(in ssa.Instruction) string {
 // continues only on the non-panicking side).
 func (ex *Exec) safe(st *State, in ssa.Instruction, what string, ok *Term) {
 	ok = Subst(ok, st.substMap())
+	if ex.allowPanic {
+		// the contract of this function does not claim panic-freedom: continue on the non-panicking side
+		if ok.IsFalse() {
+			panic(abortPath{"definite panic: " + what})
+		}
+		st.Assume(ok)
+		return
+	}
 	if ok.IsTrue() {
 		ex.trivial++
 		ex.trivialNames[ex.rootName+"#"+ex.instrLabel("safe:"+what, in)] = "safe"
@@ -217,6 +231,11 @@ func (st *State) learn(c *Term) {
 		if b.IsConst() && !a.IsConst() {
 			st.addSubst(a, b)
 		} else if a.IsConst() && !b.IsConst() {
+			st.addSubst(b, a)
+		} else if a.Op == "select" && b.Op != "select" && !a.bound && !b.bound && a.Sort.IsBV() {
+			// memory cell known to hold a value expressed without memory: rewrite the cell
+			st.addSubst(a, b)
+		} else if b.Op == "select" && a.Op != "select" && !a.bound && !b.bound && b.Sort.IsBV() {
 			st.addSubst(b, a)
 		}
 	case "var":
@@ -334,6 +353,17 @@ func (ex *Exec) runBlock(fr *Frame, b *ssa.BasicBlock, prev *ssa.BasicBlock, st 
 	visits[b]++
 	if visits[b] > 600 {
 		panic(abortAll{fmt.Sprintf("block visit limit in %s (loop without invariant?)", fr.fn)})
+	}
+	// leaving a loop that was cut at its head: facts dropped there are valid again
+	for h, ctx := range fr.loops {
+		if !ctx.exited && ctx.body != nil && !ctx.body[b] {
+			st.assumes = append(st.assumes, ctx.dropped...)
+			st.frameCheck, st.frameCheckRange = ctx.outerFC, ctx.outerFR
+			nc := *ctx
+			nc.dropped = nil
+			nc.exited = true
+			fr.loops[h] = &nc
+		}
 	}
 	// phis first (parallel assignment)
 	ex.bindPhis(fr, b, prev)
@@ -984,6 +1014,20 @@ func (ex *Exec) makeSlice(fr *Frame, x *ssa.MakeSlice, st *State) {
 	n := ex.toIndex(ex.get(fr, x.Len).(*Term), x.Len.Type())
 	c := ex.toIndex(ex.get(fr, x.Cap).(*Term), x.Cap.Type())
 	ex.safe(st, x, "makeslice", And(BVCmp("bvule", n, c), BVCmp("bvule", c, maxObj)))
+	// name composite length expressions: smaller terms in quantifier instantiations
+	same := n == c
+	if !n.IsConst() && n.Op != "var" {
+		v := FreshVar("mklen", BV(64))
+		st.Assume(Eq(v, n))
+		n = v
+	}
+	if same {
+		c = n
+	} else if !c.IsConst() && c.Op != "var" {
+		v := FreshVar("mkcap", BV(64))
+		st.Assume(Eq(v, c))
+		c = v
+	}
 	fr.regs[x] = &SliceV{Base: st.FreshRegion(), Off: BVc(0, 64), Len: n, Cap: c}
 }
 
@@ -1141,16 +1185,32 @@ func bvToKey(k *Term, t types.Type) Value {
 var divCache = map[[2]int][2]*Term{}
 
 func divByConst(st *State, x, c *Term, signed bool) (q, r *Term, ok bool) {
-	if x.Sort.Width() != 64 || !c.IsConst() || x.IsConst() {
+	if !c.IsConst() || x.IsConst() {
 		return nil, nil, false
 	}
+	w := x.Sort.Width()
 	var cv *big.Int
 	if signed {
 		cv = c.Signed()
 	} else {
 		cv = c.Val
 	}
-	if cv.Sign() <= 0 || cv.BitLen() > 40 || cv.Cmp(big.NewInt(1)) == 0 {
+	if cv.Sign() <= 0 || cv.Cmp(big.NewInt(1)) == 0 {
+		return nil, nil, false
+	}
+	// powers of two (any width): shifts and masks (truncated division: negate around the shift for negatives)
+	if new(big.Int).And(cv, new(big.Int).Sub(cv, big.NewInt(1))).Sign() == 0 {
+		n := BVc(int64(cv.BitLen()-1), w)
+		m := BVConst(new(big.Int).Sub(cv, big.NewInt(1)), w)
+		if !signed {
+			return BVBin("bvlshr", x, n), BVBin("bvand", x, m), true
+		}
+		neg := BVCmp("bvslt", x, BVc(0, w))
+		q = Ite(neg, BVNeg(BVBin("bvlshr", BVNeg(x), n)), BVBin("bvlshr", x, n))
+		r = Ite(neg, BVNeg(BVBin("bvand", BVNeg(x), m)), BVBin("bvand", x, m))
+		return q, r, true
+	}
+	if w != 64 || cv.BitLen() > 40 {
 		return nil, nil, false
 	}
 	key := [2]int{x.id, c.id}
